@@ -1,5 +1,138 @@
-import WhVerif.Model.C11
-import WhVerif.Spec.C11
+import WhVerif.Lemmas.C11
+/-!
+# C11 — `whatshap compare` reports the defined error counts, independent of haplotype labelling
+
+Theorems about the model `WhVerif.C11` of `whatshap/cli/compare.py` (diploid, all block lengths).
+`dipl a = [a, flipBits a]` is a diploid phasing of heterozygous biallelic variants (what `compare` hands to
+`compare_block` for ploidy 2: only common heterozygous variants are compared).
+`compareBlock fixA fixB` — the flags only concern the polyploid branch; every theorem holds for all values.
+-/
 namespace WhVerif.Props.C11
 open WhVerif.C11
+
+/-- switches = non-flip switches + 2 · flips, for the raw functions on arbitrary strings -/
+theorem switches_eq_nonflip_plus_two_flips (a b : Hap) :
+    hamming (switchEncoding a) (switchEncoding b)
+      = (computeSwitchFlips a b).switches + 2 * (computeSwitchFlips a b).flips := by
+  have := sfLoop_inv ((switchEncoding a).zip (switchEncoding b)) 0 ⟨0, 0⟩ (Or.inr rfl)
+  simp only [computeSwitchFlips]
+  rw [this, hamming_eq_diffCount]
+  simp
+
+/-- … and for what `compare_block` reports on any diploid block -/
+theorem compareBlock_switches_eq_nonflip_plus_two_flips (fixA fixB : Bool) (a0 a1 b0 b1 : Hap) (e : PhasingErrors)
+    (h : compareBlock fixA fixB [a0, a1] [b0, b1] = some e) :
+    e.switches = e.sf.switches + 2 * e.sf.flips := by
+  rw [compareBlock_two] at h
+  split at h
+  · injection h with h; subst h
+    exact switches_eq_nonflip_plus_two_flips a0 b0
+  · cases h
+
+example : compareBlock false false [[0,0,0,1,1],[1,1,1,0,0]] [[0,0,1,1,1],[1,1,0,0,0]]
+    = some ⟨2, 1, ⟨0, 1⟩, 0, 1⟩ := by decide
+
+/-- all numbers are zero when a diploid block is compared with itself -/
+theorem zero_on_identical (fixA fixB : Bool) (a0 a1 : Hap) (hl : a1.length = a0.length) :
+    compareBlock fixA fixB [a0, a1] [a0, a1] = some ⟨0, 0, ⟨0, 0⟩, 0, 1⟩ := by
+  rw [compareBlock_two]
+  simp [hl, computeSwitchFlips, sfLoop_diag, matchingPos_self]
+
+example : compareBlock true true [[0,1,1],[1,0,0]] [[0,1,1],[1,0,0]] = some ⟨0, 0, ⟨0, 0⟩, 0, 1⟩ :=
+  zero_on_identical true true _ _ rfl
+
+/-- the switch encoding does not see which of the two haplotypes is listed (`complement` as coded) -/
+theorem swap_invariant_switchEncoding (s c : Hap) (h : complement s = some c) :
+    switchEncoding c = switchEncoding s := by
+  obtain ⟨hb, rfl⟩ := (complement_eq_some_iff s c).1 h
+  exact switchEncoding_flipBits hb
+
+example : complement [0,1,1,0] = some [1,0,0,1] := by decide
+
+/-- `compare_block` reports the same numbers when the haplotypes of the first phasing are listed in the other order -/
+theorem swap_invariant_left (fixA fixB : Bool) (a : Hap) (ph1 : List Hap) (ha : IsBinary a) :
+    compareBlock fixA fixB [flipBits a, a] ph1 = compareBlock fixA fixB (dipl a) ph1 := by
+  match ph1 with
+  | [b0, b1] =>
+    simp only [dipl, compareBlock_two, flipBits_length, matchingPos_swap_left, switchEncoding_flipBits ha,
+      computeSwitchFlips]
+    simp only [Nat.min_comm (hamming b0 (flipBits a) + hamming b1 a)]
+  | [] => simp [compareBlock, wellFormed, dipl]
+  | [_] => simp [compareBlock, wellFormed, dipl]
+  | _ :: _ :: _ :: _ => simp [compareBlock, wellFormed, dipl]
+
+/-- … and when the haplotypes of the second phasing are listed in the other order -/
+theorem swap_invariant_right (fixA fixB : Bool) (b : Hap) (ph0 : List Hap) (hb : IsBinary b) :
+    compareBlock fixA fixB ph0 [flipBits b, b] = compareBlock fixA fixB ph0 (dipl b) := by
+  match ph0 with
+  | [a0, a1] =>
+    simp only [dipl, compareBlock_two, flipBits_length, matchingPos_swap_right, switchEncoding_flipBits hb,
+      computeSwitchFlips]
+    simp only [Nat.min_comm (hamming (flipBits b) a0 + hamming b a1), Nat.add_comm (hamming b a1)]
+    simp [and_comm, Nat.add_comm]
+  | [] => simp [compareBlock, wellFormed, dipl]
+  | [_] => simp [compareBlock, wellFormed, dipl]
+  | _ :: _ :: _ :: _ => simp [compareBlock, wellFormed, dipl]
+
+example : IsBinary [0,1,1,0] := by decide
+
+/-- the reported Hamming distance is the minimum over the haplotype correspondences (brute-force spec:
+all bijections), halved — any diploid block -/
+theorem hamming_is_min_over_correspondences (fixA fixB : Bool) (a0 a1 b0 b1 : Hap) (e : PhasingErrors)
+    (h : compareBlock fixA fixB [a0, a1] [b0, b1] = some e) :
+    e.hamming = Spec.minHammingNum [a0, a1] [b0, b1] / 2 := by
+  rw [compareBlock_two] at h
+  split at h
+  · injection h with h; subst h
+    simp [spec_minHammingNum_two]
+  · cases h
+
+/-- … which for heterozygous biallelic phasings is `min(d, n - d)`, `d` = Hamming distance of the first haplotypes -/
+theorem hamming_eq_min_d (fixA fixB : Bool) (a b : Hap) (e : PhasingErrors)
+    (ha : IsBinary a) (hb : IsBinary b) (hl : a.length = b.length)
+    (h : compareBlock fixA fixB (dipl a) (dipl b) = some e) :
+    e.hamming = min (hamming a b) (a.length - hamming a b) := by
+  simp only [dipl] at h
+  rw [compareBlock_two] at h
+  split at h
+  · injection h with h; subst h
+    have h1 := hamming_flip_right hb ha hl.symm
+    have h2 := hamming_flip_right (isBinary_flipBits b) ha (by simpa using hl.symm)
+    have h3 := hamming_flip_flip hb ha
+    have h4 := hamming_comm b a
+    simp only [h3]
+    omega
+  · cases h
+
+example : compareBlock false false (dipl [0,1,1,0,1]) (dipl [1,0,0,1,1]) = some ⟨1, 1, ⟨1, 0⟩, 0, 1⟩ := by decide
+
+/-- repaired `compare_pair` (fixes/F3.patch): the agreement vector of a block marks exactly as many
+disagreements (zeros) as the Hamming distance `compare_block` reports for it -/
+theorem agreement_matches_hamming (fixA fixB : Bool) (a b : Hap) (e : PhasingErrors) (v : List Nat)
+    (ha : IsBinary a) (hb : IsBinary b) (hl : a.length = b.length)
+    (h : compareBlock fixA fixB (dipl a) (dipl b) = some e)
+    (hv : agreementFixed (dipl a) (dipl b) = some v) :
+    zerosOf v = e.hamming := by
+  rw [hamming_eq_min_d fixA fixB a b e ha hb hl h]
+  rw [agreementFixed_dipl a b hb] at hv
+  injection hv with hv
+  have h1 := hamming_flip_right ha hb hl
+  have h2 := zerosOf_agreeEq a b
+  have h3 := zerosOf_agreeNe a b hl
+  subst hv
+  by_cases hlt : hamming a b < hamming a (flipBits b)
+  · rw [if_pos hlt]; omega
+  · rw [if_neg hlt]; omega
+
+example : agreementFixed (dipl [0,1,1,0,1]) (dipl [1,0,0,1,1]) = some [1,1,1,1,0] := by decide
+
+/-- F3: the code as it is (`hamming(phasing0, phasing1)` on the two LISTS of haplotype strings) violates it:
+n = 10, d = 6: six positions marked as disagreeing, reported Hamming distance 4 -/
+theorem F3_witness :
+    let a : Hap := [0,0,0,0,0,0,0,0,0,0]
+    let b : Hap := [1,1,1,1,1,1,0,0,0,0]
+    (agreementFaithful (dipl a) (dipl b)).map zerosOf = some 6 ∧
+    (compareBlock false false (dipl a) (dipl b)).map (·.hamming) = some 4 ∧
+    (agreementFixed (dipl a) (dipl b)).map zerosOf = some 4 := by decide
+
 end WhVerif.Props.C11
